@@ -458,7 +458,7 @@ exactly that many when it had to cut — proved for the repaired code
 (notes/fix-truncate-after-cut.diff) and, on the unrepaired code, for text without wide
 clusters. -/
 theorem truncate_width (s : List Item) (dw : Nat) (tail out : List Item)
-    (hok : Generated.truncStopsAfterCut = true ∨ (NoWide s ∧ NoWide tail))
+    (hok : Generated.wrapTruncStopsAfterCut = true ∨ (NoWide s ∧ NoWide tail))
     (h : truncateStr s dw tail = .ok out) :
     measure out ≤ dw ∧ (dw < measure s → measure out = dw) :=
   truncateImplF_width _ s dw tail out hok h
@@ -508,7 +508,7 @@ open SideBySide in
 width wide on every row, so the right panel starts at the same column on every row; any panel
 is at most the panel width wide. (Same proviso as `truncate_width`.) -/
 theorem left_panel_exact (pw : Nat) (line tail out : List Item) (fill : Fill)
-    (hok : Generated.truncStopsAfterCut = true ∨ (NoWide line ∧ NoWide tail))
+    (hok : Generated.wrapTruncStopsAfterCut = true ∨ (NoWide line ∧ NoWide tail))
     (h : padPanel pw line tail fill = .ok out) :
     measure out ≤ pw ∧ (fill = .spaces → measure out = pw) :=
   padPanel_width pw line tail out fill hok h
@@ -518,7 +518,7 @@ open SideBySide in
 derived from `--width w`, is at most `w` columns wide, and the right panel starts at column
 `w / 2` — for even and odd `w`, with either fill method. -/
 theorem row_width_bound (w : Nat) (ansi : Bool) (l r tail lo ro : List Item) (fill : Fill)
-    (hok : Generated.truncStopsAfterCut = true ∨ (NoWide l ∧ NoWide r ∧ NoWide tail))
+    (hok : Generated.wrapTruncStopsAfterCut = true ∨ (NoWide l ∧ NoWide r ∧ NoWide tail))
     (hl : padPanel (panelWidths w ansi).1 l tail .spaces = .ok lo)
     (hr : padPanel (panelWidths w ansi).2 r tail fill = .ok ro) :
     measure lo = w / 2 ∧ rowWidthOf lo ro ≤ w := by
